@@ -390,6 +390,10 @@ def run(chk: Check, eng: Engine) -> None:
     from .c11 import gethash_rule
 
     gethash_rule(chk, eng, "R07-g")
+    chk.rule("R07-n", "what a constraint reads from a node (value(), hash, size) is not a memoised mutable object handed out by reference: the verdict of one "
+             "constraint must not depend on which constraint looked at the tree before", floor=1)
+    from .c11 import memo_by_reference_rule
+    memo_by_reference_rule(chk, eng, "R07-n")
     chk.rule("R07-m", "constraint expressions are evaluated in one namespace: the variables bound to the matches are visible inside the generator expressions / lambdas "
              "of the expression (any / all comprehensions are part of the documented constraint language)", floor=4)
     from .c08 import single_namespace_rule
@@ -428,6 +432,9 @@ _EX = "src/fandango/constraints/exists.py"
 _IMP = "src/fandango/constraints/implication.py"
 _S = "src/fandango/language/search.py"
 MUTANTS = [
+    M("node-value-memoised-by-reference", "src/fandango/language/tree.py", "        aggregate = TreeValue.empty()\n        for child in self._children:\n            aggregate = aggregate.append(child.value())\n        return aggregate\n",
+      "        if self._value_cache is None:\n            aggregate = TreeValue.empty()\n            for child in self._children:\n                aggregate = aggregate.append(child.value())\n            self._value_cache = aggregate\n        return self._value_cache\n", "R07-n",
+      more=(("        self.hash_cache: Optional[int] = None\n", "        self.hash_cache: Optional[int] = None\n        self._value_cache: Optional[TreeValue] = None\n"),)),
     M("matches-bound-as-eval-locals", "src/fandango/constraints/constraint.py", "        return eval(expression, {**global_variables, **local_variables})\n", "        return eval(expression, global_variables, local_variables)\n", "R07-m"),
     M("exists-binds-into-callers-scope", "src/fandango/constraints/exists.py", "        scope = dict(scope or {})\n        local_variables = dict(local_variables or {})\n", "        scope = scope or dict()\n        local_variables = local_variables or dict()\n", "R07-l"),
     M("forall-domain-without-scope", "src/fandango/constraints/forall.py", "        for container in self.search.quantify(tree, scope=scope):\n", "        for container in self.search.quantify(tree):\n", "R07-k"),
